@@ -830,24 +830,27 @@ def bucket_index(prog, chk, rid, classes=("HashMap", "HashSet", "PoolMap")):
 
 
 def swap_stored_from(f, st, defs, side_lhs, src_text, need_tmp):
-    """is there a store side_lhs = <value of src_text as of function entry> (directly, or through a
-    temporary initialised from it before it was overwritten)?"""
+    """is there a store side_lhs = <value of src_text as of function entry> — directly, or through a chain of temporaries /
+    by-value parameters of an inlined helper, the first of which was initialised from it before it was overwritten?"""
     T = lambda i: q.no_casts(f.r(i))
+    over = [x for x in st if T(x.lhs) == src_text]
     for s in st:
         if s.op != "=" or T(s.lhs) != side_lhs or s.rhs is None:
             continue
-        r = f.nodes[f.strip(s.rhs)]
-        if not need_tmp:
-            if T(s.rhs) == src_text:
-                over = [x for x in st if T(x.lhs) == src_text]
-                if all(not q.reaches(f, x.node, s.node) for x in over):
-                    return True
-        if r["k"] == "DeclRefExpr" and r["ref"]["dk"] == "local":
-            init = q.single_def(f, r["ref"]["id"], defs)
-            if init is not None and T(init) == src_text:
-                over = [x for x in st if T(x.lhs) == src_text]
-                if all(not q.reaches(f, x.node, init) for x in over):
-                    return True
+        x = f.strip(s.rhs)
+        read_at = s.node
+        for _ in range(6):
+            r = f.nodes[x]
+            if r["k"] == "DeclRefExpr" and r["ref"]["dk"] == "local":
+                init = q.single_def(f, r["ref"]["id"], defs)
+                if init is None:
+                    break
+                read_at = init
+                x = f.strip(init)
+                continue
+            break
+        if T(x) == src_text and all(not q.reaches(f, o.node, read_at) for o in over):
+            return True
     return False
 
 
@@ -953,3 +956,67 @@ def parent_pairing(prog, chk, rid, classes=("Map", "MultiMap")):
                     else:
                         chk.bad(rid, f, "child-link-without-parent-pointer:%s=%s" % (lt.replace("->", "."), Y), f.where(s.node),
                                 "`%s = %s` makes %s a child but a path does not set %s->parent accordingly: later rotations/removals walk up through a stale parent" % (lt, Y, Y, Y))
+
+
+def wrappers(prog, chk, rid, classes=tuple(NODE)):
+    """WRAP: the positional convenience members delegate to the core member with the position their name promises"""
+    chk.rule(rid, "WRAP: append*/prepend* insert at end()/begin(); removeFront/removeBack remove the first/last node; front()/back() designate the "
+                  "first/last node's payload; contains(k) is find(k) != end(); size() is _size; begin()/end() return the stored iterators", floor=len(classes) * 6)
+    END = ("this->_end", "this->end()")
+    BEGIN = ("this->_begin", "this->begin()")
+    LASTN = ("this->_end.item->prev", "this->endItem.prev", "&this->endItem->prev")
+    for cls in classes:
+        for tn, fs in sorted(class_insts(prog, cls).items()):
+            for f in [f for f in fs if f.cls == tn]:
+                where = "%s:%s" % (f.file, f.line)
+                defs = q.local_defs(f)
+                N = lambda i: q.no_casts(norm(f, i, {}, defs))
+                this_calls = [c for c in q.calls(f) if f.nodes[c]["k"] == "CXXMemberCallExpr" and (q.call_object(f, c) is None or f.nodes[q.call_object(f, c)]["k"] == "CXXThisExpr")]
+                rets = [n["c"][0] for n in f.nodes if n["k"] == "ReturnStmt" and n["c"]]
+                want = None
+                if f.short in ("append", "prepend") and f.params and not any(re.match(r"^const (List|HashSet|HashMap|PoolList|PoolMap|Map|MultiMap)<", p["t"]) for p in f.params):
+                    ins = [c for c in this_calls if f.nodes[c]["callee"].endswith("::insert")]
+                    if not ins:
+                        continue       # pool containers construct in place (linkFreeItem): decided by the link idiom
+                    pos = N(q.call_args(f, ins[0])[0])
+                    ok = pos in (END if f.short == "append" else BEGIN)
+                    want = "insert(%s, ...)" % ("end()" if f.short == "append" else "begin()")
+                    got = "insert(%s, ...)" % pos
+                elif f.short in ("removeFront", "removeBack") and not f.params:
+                    rm = [c for c in this_calls if f.nodes[c]["callee"].endswith("::remove")]
+                    if not rm:
+                        ok, got = False, "no remove() call"
+                    else:
+                        a = N(q.call_args(f, rm[0])[0])
+                        a2 = re.sub(r"^(const )?[\w:<>, ]*Iterator\((.*)\)$", r"\2", a)
+                        ok = (a in BEGIN) if f.short == "removeFront" else (a2 in LASTN)
+                        got = "remove(%s)" % a
+                    want = "remove(begin())" if f.short == "removeFront" else "remove(Iterator(last node))"
+                elif f.short in ("front", "back") and not f.params and rets:
+                    t = N(rets[0])
+                    base = "this->_begin.item" if f.short == "front" else None
+                    if f.short == "front":
+                        ok = t in ("this->_begin.item->value", "this->_begin.item->key", "*(this->_begin.item + 1)")
+                    else:
+                        ok = any(t in (b + "->value", b + "->key", "*(%s + 1)" % b) for b in LASTN)
+                    want, got = "payload of the %s node" % ("first" if f.short == "front" else "last"), t
+                elif f.short == "contains" and len(f.params) == 1 and rets:
+                    t = N(rets[0])
+                    k = f.params[0]["n"]
+                    ok = t in ("(this->find(%s) != this->_end)" % k, "(this->_end != this->find(%s))" % k, "!(this->find(%s) == this->_end)" % k, "(this->find(%s) != this->end())" % k)
+                    want, got = "find(key) != end()", t
+                elif f.short == "size" and not f.params and rets:
+                    t = N(rets[0])
+                    ok = t == "this->_size"
+                    want, got = "_size", t
+                elif f.short in ("begin", "end") and not f.params and rets:
+                    t = N(rets[0])
+                    ok = t == "this->_" + f.short
+                    want, got = "_" + f.short, t
+                else:
+                    continue
+                if ok:
+                    chk.ok(rid, f, "%s delegates as %s" % (f.short, want), where, got[:60], nontrivial=False)
+                else:
+                    chk.bad(rid, f, "wrapper-delegates-wrongly:" + f.short, where,
+                            "%s() is `%s`, its contract is %s: the operation acts on a different position / node than its name promises" % (f.short, got[:70], want))
